@@ -180,6 +180,26 @@ Theorem code_encodeColor1 : forall b c, wf_gcolor c ->
 Proof. exact GenEqColor.go_encodeColor1_eq. Qed.
 Print Assumptions code_encodeColor1.
 
+Theorem code_encodeColor2 : forall b c, wf_gcolor c ->
+  go_encode_buffer_encodeColor2 b c = b ++ match encode2 (abs_color c) with Some l => l | None => [0; 15] end.
+Proof. exact GenEqColor.go_encodeColor2_eq. Qed.
+Print Assumptions code_encodeColor2.
+
+Theorem code_encodeColor3Direct : forall b c, wf_gcolor c ->
+  go_encode_buffer_encodeColor3Direct b c = b ++ match encode3direct (abs_color c) with Some l => l | None => [0; 0; 0] end.
+Proof. exact GenEqColor.go_encodeColor3Direct_eq. Qed.
+Print Assumptions code_encodeColor3Direct.
+
+Theorem code_encodeColor4 : forall b c, wf_gcolor c ->
+  go_encode_buffer_encodeColor4 b c = b ++ match encode4 (abs_color c) with Some l => l | None => [0; 0; 0; 255] end.
+Proof. exact GenEqColor.go_encodeColor4_eq. Qed.
+Print Assumptions code_encodeColor4.
+
+Theorem code_encodeColor3Indirect : forall b c, wf_gcolor c ->
+  go_encode_buffer_encodeColor3Indirect b c = b ++ match encode3indirect (abs_color c) with Some l => l | None => [0; 0; 0] end.
+Proof. exact GenEqColor.go_encodeColor3Indirect_eq. Qed.
+Print Assumptions code_encodeColor3Indirect.
+
 Theorem code_ValidGradient : forall c, wf_rgba c -> go_ivg_ValidGradient c = valid_gradient c.
 Proof. exact GenEqColor.go_ValidGradient_eq. Qed.
 Print Assumptions code_ValidGradient.
